@@ -76,9 +76,11 @@ def build(program):
     return handlers
 
 
-def execute(program):
+def execute(program, lazy=False):
     w = ghost.RunWorld(build(program), script=[], horizon=40, idle_needed=10 ** 9)
     w.auto_stop = True     # only the horizon makes the driver stop (idle_needed is unreachable)
+    w.lazy = lazy          # lazy: nobody asks for zero idle time; the fall-back's idle wait is a double that reports every wait
+    w.use_idle_double()
     results = []
     pre = len(w.log), len(w.root)
     w.root.stop()          # stop() on a manager that is not running
@@ -129,6 +131,12 @@ def judge(program, w, marks):
     for cyc, (a, b, res, qlen, by_driver) in enumerate(marks):
         seg = w.log[a:b]
         tag = 'cycle%d:' % (cyc + 1)
+        forever = [x for x in seg if x[0] == 'idle-wait' and (x[1] is None or x[1] >= 1000)]
+        if forever:
+            after_stop = any(x[0] == 'stopcall' for x in seg[:seg.index(forever[0])])
+            bad.append((tag + 'idle-forever', 'the loop entered an idle wait of %r s that only another thread could end (%s); '
+                        'in this single-threaded program run() would never return' % (forever[0][1], 'after the stop action' if after_stop else 'before the stop action')))
+            continue
         if by_driver:
             bad.append((tag + 'never-stopped', 'run() did not end after the stop action (driver had to stop it at the horizon)'))
             continue
@@ -171,24 +179,29 @@ def _work(part, nparts, payload):
     core.quiet_stderr()
     st = core.Stats()
     for idx, program in enumerate(itertools.islice(programs(tier), part, None, nparts)):
-        w, marks = execute(program)
-        st.executions += 1
-        st.transitions += len(w.log)
-        st.interesting(program)
-        st.outcome(tuple(x for x in w.log if x[0] in ('obs', 'enter')) + tuple(m[2] for m in marks))
-        if program[4] is not None:
-            st.counters['programs_with_generator_link'] += 1
-        if part == seed % nparts and idx in (1, 30):
-            st.sample({'program': pj(program), 'cycles': [list(m[2]) for m in marks], 'log': [list(x) for x in w.log if x[0] != 'iter'][:40]})
-        for kind, text in judge(program, w, marks):
-            st.fail(kind, '%s [program %r]' % (text, pj(program)), dict(pj(program), part='program'))
+        for lazy in (False, True):
+            w, marks = execute(program, lazy)
+            st.executions += 1
+            st.transitions += len(w.log)
+            st.interesting((program, lazy))
+            st.outcome(tuple(x for x in w.log if x[0] in ('obs', 'enter')) + tuple(m[2] for m in marks))
+            if program[4] is not None:
+                st.counters['programs_with_generator_link'] += 1
+            if lazy:
+                st.counters['executions_idling_as_the_library_decides'] += 1
+                st.counters['timed_idle_waits_observed'] += sum(1 for x in w.log if x[0] == 'idle-wait')
+            if part == seed % nparts and idx in (1, 30):
+                st.sample({'program': pj(program), 'lazy': lazy, 'cycles': [list(m[2]) for m in marks], 'log': [list(x) for x in w.log if x[0] != 'iter'][:40]})
+            for kind, text in judge(program, w, marks):
+                st.fail(kind, '%s [program %r, %s]' % (text, pj(program), 'idle time decided by the library' if lazy else 'driver asks for zero idle time'),
+                        dict(pj(program), part='program', lazy=lazy))
     return st
 
 
 def run(tier, seed, workers):
     total = sum(1 for _ in programs(tier))
     st = core.parallel(_work, (tier, seed), workers, nparts=workers * 4)
-    if st.executions != total:
+    if st.executions != 2 * total:
         st.selfcheck_errors.append('enumeration: %d of %d' % (st.executions, total))
     st.bounds = {'programs': total, 'chain_length': 3, 'cycles': 2, 'actions': len(ACTIONS)}
     from checks import c08_threads
@@ -203,7 +216,7 @@ def replay(wj):
         from checks import c08_threads
         return c08_threads.replay(wj)
     program = (wj['L'], wj['pos'], tuple(wj['action']), wj['order'], wj['gen'], wj['extra'])
-    w, marks = execute(program)
+    w, marks = execute(program, bool(wj.get('lazy')))
     bad = judge(program, w, marks)
     text = 'program %r\ncycles: %r\nlog:\n  %s\n' % (pj(program), marks, '\n  '.join(map(repr, (x for x in w.log if x[0] != 'iter'))))
     text += ''.join('VIOLATED %s: %s\n' % b for b in bad) or 'all clauses hold\n'
